@@ -110,7 +110,9 @@ def gen_case1(rng):
     tree = [{'parts': p, 'size': s, 'kind': rng.choice(['data', 'data', 'zero', 'rep', 'same'])} for p, s in zip(paths, sizes)]
     return {'dir': 1, 'settings': settings, 'concurrent': rng.choice([1, 2, 5]), 'tree': tree, 'seed': rng.randint(0, 2 ** 31),
             'second': rng.random() < 0.4, 'note': rng.choice([None, 'n', 'note é']),
-            'tz': [rng.choice(TIME_ZONES), rng.choice(TIME_ZONES)] if rng.random() < 0.4 else None}
+            'tz': [rng.choice(TIME_ZONES), rng.choice(TIME_ZONES)] if rng.random() < 0.4 else None,
+            'args': rng.choice(['root', 'root', 'each', 'dup', 'overlap', 'overlap', 'symlink', 'spelling']),
+            'fault': rng.choice([None] * 8 + ['vanish', 'unreadable'])}
 
 
 def read_block_size():
@@ -202,6 +204,67 @@ def _tz(name):
         time.tzset()
 
 
+@contextlib.contextmanager
+def _fault(kind, victim):
+    """while a snapshot runs: 'vanish' removes the victim once the first file has been read to its end (hook on
+    read_metadata); 'unreadable' makes opening the victim for reading fail with PermissionError (hook on Path.open)"""
+    if not kind:
+        yield
+        return
+    import replicat.repository as R
+    orig_rm, orig_open = R.Repository.read_metadata, Path.open
+    fired = []
+
+    def read_metadata(self, file):
+        res = orig_rm(self, file)
+        if kind == 'vanish' and not fired:
+            fired.append(1)
+            with contextlib.suppress(FileNotFoundError):
+                os.unlink(victim)
+        return res
+
+    def popen(self, *a, **k):
+        if kind == 'unreadable' and str(self) == str(victim) and (a[:1] == ('rb',) or k.get('mode') == 'rb'):
+            raise PermissionError(13, 'Permission denied', str(self))
+        return orig_open(self, *a, **k)
+
+    R.Repository.read_metadata, Path.open = read_metadata, popen
+    try:
+        yield
+    finally:
+        R.Repository.read_metadata, Path.open = orig_rm, orig_open
+
+
+def snapshot_args(kind, src, files, wd):
+    """argument lists that all denote every file under src once: repeats, overlaps, a symlink resolving into
+    another argument, an odd spelling"""
+    sub = [f for f in files if f.parent != src]
+    if kind == 'each':
+        return list(files)
+    if kind == 'dup':
+        return [src, src]
+    if kind == 'overlap':
+        return [src] + ([sub[0].parent] if sub else []) + list(files[:2])
+    if kind == 'symlink':
+        links = Path(os.path.realpath(wd)) / 'links'
+        links.mkdir(exist_ok=True)
+        out = [src]
+        for i, tgt in enumerate(([sub[0].parent] if sub else []) + list(files[:1])):
+            l = links / f'l{i}'
+            if not l.is_symlink():
+                os.symlink(tgt, l)
+            out.append(l)
+        return out
+    if kind == 'spelling':
+        out = [src, Path(str(src) + '/../' + src.name)]
+        if sub:
+            out.append(Path(str(sub[0].parent) + '/../' + sub[0].parent.name + '/' + sub[0].name))
+        if files:
+            out.append(Path(str(src) + '/./' + str(files[0].relative_to(src))))
+        return out
+    return [src]
+
+
 def _utcnow():
     return datetime.fromtimestamp(time.time(), timezone.utc)
 
@@ -248,6 +311,8 @@ def run_dir1(case, wd: Path):
     expected = []        # per snapshot: (location, {path: (bytes, mtime_ns, size)}, note, (utc before, utc after))
     tzs = list(case.get('tz') or [None, None])
     restored = []
+    akind = case.get('args', 'root')
+    outcome = []         # of the snapshot taken while a file vanishes / is unreadable
 
     def state():
         return {str(p): (p.read_bytes(), p.stat().st_mtime_ns, p.stat().st_size, p.stat().st_mode) for p in files}
@@ -261,9 +326,29 @@ def run_dir1(case, wd: Path):
         st = state()
         with _tz(tzs[0]):
             t0 = _utcnow()
-            s = await r2.snapshot(paths=[src], note=case['note'])
+            s = await r2.snapshot(paths=snapshot_args(akind, src, files, wd), note=case['note'])
             expected.append((s.location, st, case['note'], (t0, _utcnow())))
-        if case['second'] and files:
+        if case.get('fault') and files:
+            # a second snapshot during which a file vanishes / cannot be read when its turn comes
+            q = src / 'added-later'
+            q.write_bytes(rng.randbytes(rng.choice([1, 3, 33])))
+            files.append(q)
+            victim = max(files, key=lambda f: (f.stat().st_size, str(f)))      # streamed last
+            kind = case['fault'] if len(files) >= 2 else 'unreadable'
+            args = snapshot_args(akind, src, files, wd)
+            try:
+                with _fault(kind, victim), _tz(tzs[1]):
+                    t0 = _utcnow()
+                    s = await r2.snapshot(paths=args, note=None)
+                    t1 = _utcnow()
+            except OSError as e:
+                outcome.append(f'raised {type(e).__name__}')
+            else:
+                # it went through: whatever got stored must be a well-formed snapshot of the files that could be read
+                outcome.append('returned')
+                files.remove(victim)
+                expected.append((s.location, state(), None, (t0, t1)))
+        elif case['second'] and files:
             p = files[0]
             old = p.read_bytes()
             p.write_bytes(old[:len(old) // 2] + rng.randbytes(rng.choice([0, 1, 5, 40])) + old[len(old) // 2:])
@@ -274,7 +359,7 @@ def run_dir1(case, wd: Path):
             time.sleep(0.002)
             with _tz(tzs[1]):
                 t0 = _utcnow()
-                s = await r2.snapshot(paths=[src], note=None)
+                s = await r2.snapshot(paths=snapshot_args(akind, src, files, wd), note=None)
                 expected.append((s.location, st, None, (t0, _utcnow())))
             if any(tzs):
                 # the snapshots were taken in different zones: restore must still bring back the latest version
@@ -290,7 +375,7 @@ def run_dir1(case, wd: Path):
         key_bytes = asyncio.run(go())
 
     problems = []
-    obs = {'locs': [], 'files': [], 'encrypted': encrypted}
+    obs = {'locs': [], 'files': [], 'encrypted': encrypted, 'fault_outcome': outcome[0] if outcome else None}
 
     def bad(what, kind):
         problems.append((what, kind))
@@ -390,12 +475,19 @@ def _read_dir1(case, settings, encrypted, password, objects, key_bytes, expected
         spans, bycounter = [], {}
         seen_paths = [f.get('path') for f in data['files']]
         if sorted(seen_paths) != sorted(st):
-            bad(f'files recorded {len(seen_paths)} != files in the tree {len(st)}', 'file_set')
+            bad(f'files recorded {len(seen_paths)} ({len(set(seen_paths))} distinct) != files the arguments denote {len(st)}'
+                + (f' (snapshot {obs["fault_outcome"]} while a file could not be read)' if obs.get('fault_outcome') else ''), 'file_set')
         used_idx = set()
         for entry in data['files']:
-            if set(entry) != {'path', 'chunks', 'digest', 'metadata'} or entry['path'] not in st:
+            if set(entry) != {'path', 'chunks', 'digest', 'metadata'}:
                 bad(f'file entry fields: {sorted(entry)}', 'file_entry')
                 continue
+            if not isinstance(entry['digest'], bytes) or not isinstance(entry['metadata'], dict) or not isinstance(entry['chunks'], list):
+                bad(f'file entry is not well-formed: digest {type(entry["digest"]).__name__}, metadata {type(entry["metadata"]).__name__}'
+                    + (f' (snapshot {obs["fault_outcome"]} while a file could not be read)' if obs.get('fault_outcome') else ''), 'file_entry')
+                continue
+            if entry['path'] not in st:
+                continue         # reported as file_set above
             want, mtime_ns, size, mode = st[entry['path']]
             try:
                 got, lay = rd.file_bytes(entry, table)
@@ -467,7 +559,7 @@ def _read_dir1(case, settings, encrypted, password, objects, key_bytes, expected
         except refcodec.FormatError as e:
             bad(f'chunk object does not decode under the documented scheme: {e}', 'chunk_object')
     extra = set(rd.chunk_names()) - set(want_paths)
-    if extra:
+    if extra and not (obs.get('fault_outcome') or '').startswith('raised'):      # an aborted snapshot may leave orphans (tags still verify)
         bad(f'{len(extra)} chunk object(s) at locations that are not the documented function of any table digest', 'chunk_name')
     obs['nchunks'] = len(referenced)
 
@@ -960,6 +1052,9 @@ def do_dir1(rep, ctx, cases, with_model=True):
         rep.count('d1_encrypted' if enc else 'd1_unencrypted')
         rep.count('d1_hash=' + case['settings']['hashing']['name'])
         rep.count('d1_tz=' + ('/'.join(str(z) for z in case['tz']) if case.get('tz') else 'unchanged'))
+        rep.count('d1_args=' + case.get('args', 'root'))
+        if case.get('fault'):
+            rep.count(f'd1_fault={case["fault"]}:{(obs or {}).get("fault_outcome")}')
         if case.get('big'):
             rep.count('d1_file_spanning_read_blocks')
         if enc:
